@@ -298,7 +298,8 @@ func Compare(exp *Result, got *ExecResult, o CompareOpts) string {
 			if e.Msg != g.Msg {
 				return fmt.Sprintf("rule %d msg: expected %q, observed %q", e.ID, e.Msg, g.Msg)
 			}
-			if e.Data != g.Data {
+			// the rule-level logdata is only reported next to a message; without msg it is not pinned
+			if e.Msg != "" && e.Data != g.Data {
 				return fmt.Sprintf("rule %d logdata: expected %q, observed %q", e.ID, e.Data, g.Data)
 			}
 		}
